@@ -5,7 +5,9 @@ patch=$1; shift
 cd /repo || exit 2
 if [ -n "$(git status --porcelain)" ]; then echo "repo not clean"; exit 2; fi
 git apply "$patch" || { echo "patch does not apply"; exit 2; }
-trap 'git -C /repo checkout -- . ' EXIT
+# the evidence files are records of runs on the unchanged tree: keep them aside while a seeded change is checked
+bak=$(mktemp -d /tmp/evbak.XXXXXX); cp /verif/evidence/*.json $bak/ 2>/dev/null
+trap 'git -C /repo checkout -- . ; cp $bak/*.json /verif/evidence/ 2>/dev/null; rm -rf $bak' EXIT
 cd /verif
 for p in "$@"; do
   ./bin/verif check --property $p --tier quick 2>&1 | grep -E "^(VIOLATION|UNDECIDED|TOOL-ERROR|property=)" | cut -c1-260 | head -12
